@@ -248,6 +248,37 @@ fn random_tx(g: &Gen, rng: &mut Rng, avail: &mut Vec<((u64, u32), u64)>, own_id:
       }
     }
   }
+  // two or three outputs whose script starts with OP_RETURN (bare or with data), zero-value and value-carrying, at
+  // any position including first and last: a burn is decided per output, not once per transaction
+  if rng.chance(1, 4) {
+    let n_or = 2 + rng.below(2);
+    for _ in 0..n_or {
+      let kind = if rng.chance(1, 2) { 0 } else { 5 };
+      match rng.below(3) {
+        0 => {
+          let k = rng.below(outs.len() as u64) as usize;
+          outs[k].1 = true;
+          kinds[k] = kind;
+        }
+        1 => {
+          let k = rng.below(outs.len() as u64 + 1) as usize;
+          outs.insert(k, (0, true));
+          kinds.insert(k, kind);
+        }
+        _ => {
+          let k = rng.below(outs.len() as u64) as usize;
+          let v = outs[k].0;
+          if v > 1 {
+            let a = 1 + rng.below(v - 1);
+            outs[k].0 = v - a;
+            let at = if rng.chance(1, 2) { k } else { k + 1 };
+            outs.insert(at, (a, true));
+            kinds.insert(at, kind);
+          }
+        }
+      }
+    }
+  }
   let tov: u64 = outs.iter().map(|(v, _)| *v).sum();
   // pointer candidates
   let mut starts = Vec::new();
@@ -474,6 +505,28 @@ pub fn scenario_jubilee() -> Line {
   g.line()
 }
 
+/// several OP_RETURN outputs in one transaction: A is revealed at offset 600 of its output; the next transaction has
+/// three value-carrying OP_RETURN-first-byte outputs (bare, with data, bare): A is carried (fifo) into the second,
+/// a new inscription is pointed into the third, another one into the first; all three are Burned.
+pub fn scenario_two_op_returns(sats: bool) -> Line {
+  let mut g = Gen::new(0, sats, 4);
+  g.block(
+    vec![TxPlan { kinds: vec![], ins: vec![(3, 0)], outs: vec![(SUBSIDY, false)], recipes: vec![recipe_ptr(0, 600)] }],
+    vec![(SUBSIDY, false)],
+  );
+  let t = g.next_id - 1;
+  g.block(
+    vec![TxPlan {
+      kinds: vec![0, 5, 0, 0],
+      ins: vec![(t, 0)],
+      outs: vec![(500, true), (500, true), (500, true), (SUBSIDY - 1500, false)],
+      recipes: vec![recipe_ptr(0, 1200), recipe_ptr(0, 100)],
+    }],
+    vec![(SUBSIDY, false)],
+  );
+  g.line()
+}
+
 /// output scripts: a reveal whose three inscriptions land (pointers) on an OP_RESERVED.. output, an
 /// `OP_1 OP_RETURN ..` output and an `OP_RETURN data` output; then the first two are moved (fifo) onto an
 /// invalid-opcode output and an empty script. Burned exactly for the script whose first byte is OP_RETURN.
@@ -507,6 +560,7 @@ pub fn generate(prop: &str, rng: &mut Rng, tier: &str) -> Vec<Line> {
     scenario_sibling_parents(false),
     scenario_scripts(true),
     scenario_jubilee(),
+    scenario_two_op_returns(true),
   ];
   for _ in 0..n {
     v.push(random_chain(prop, rng));
